@@ -4,16 +4,20 @@ Trace == ndJsonDeserialize(IOEnv.TRACE_FILE)
 VARIABLE l
 TInit == l = 1
 \* kinds of records: "write" (file lines produced by the real writer + what the real loader returned for them),
-\* "parse" (spec-rendered lines loaded by the real loader), "dataset" (loader relations)
+\* "parse" (spec-rendered lines loaded by the real loader), "dataset" (loader relations), "formats" (one labelled,
+\* equal-length panel rendered as .arff and as UCR .tsv text and loaded by the real loaders: same cases, same order,
+\* same labels as the .ts rendering)
 Ok(e) ==
     CASE e.kind = "write" ->
             /\ e.lines = WriterLines(e.opts, e.panel, e.labels)
             /\ e.loaded = [rej |-> FALSE, cases |-> Normalised(e.panel, e.opts.labelled), labelled |-> e.opts.labelled]
       [] e.kind = "parse" -> e.loaded = Parse(e.lines)
+      [] e.kind = "formats" -> e.arff = e.ts /\ e.tsv = e.ts
       [] e.kind = "dataset" -> (e.has_formats => FormatsAgree(e.d)) /\ SplitNoneIsTrainThenTest(e.d) /\ XyFormEqualsFrameForm(e.d)
 Clause(e) ==
     CASE e.kind = "write" -> IF e.lines # WriterLines(e.opts, e.panel, e.labels) THEN "WriterEmitsDocumentedLines" ELSE "RoundTrip"
       [] e.kind = "parse" -> IF e.loaded.rej # Parse(e.lines).rej THEN "WellFormedHeaderRequired" ELSE "ParsedPanel"
+      [] e.kind = "formats" -> IF e.arff # e.ts THEN "ArffParsesToTheSamePanel" ELSE "TsvParsesToTheSamePanel"
       [] e.kind = "dataset" -> IF e.has_formats /\ ~FormatsAgree(e.d) THEN "FormatsAgree"
                                ELSE IF ~SplitNoneIsTrainThenTest(e.d) THEN "SplitNoneIsTrainThenTest" ELSE "XyFormEqualsFrameForm"
 Verdict(e) == IF Ok(e) THEN TRUE ELSE PrintT(<<"REJECT", e.tid, Clause(e)>>)
